@@ -1,13 +1,24 @@
 (* Proofs about the model of include/gdstk/sort.hpp (Sort.v).
 
-   Main results (end of file):
-     insertion_sort_lemma          every comparator: never crashes, permutation; sorted for a strict weak order
-     partition_lemma               irreflexive comparator: in bounds, 1 <= p <= count-1, permutation; splits for a s.w.o.
-     heap_sort_lemma               irreflexive comparator: in bounds, permutation; sorted for a strict weak order
-     sort_no_crash_lemma           irreflexive comparator: sort never yields Crash / Hang
-     sort_permutation_lemma        irreflexive comparator (transitivity NOT needed): the result is a permutation
-     sort_sorted_lemma             strict weak order: the result is sorted
-   all of them for every insertion threshold and every max_depth. *)
+   Main results (end of file); `irreflexive lt` is `forall x, lt x x = false`, transitivity is NOT
+   needed for "no crash" and "permutation", only for "sorted":
+     insertion_sort_lemma             EVERY comparator: returns (no Crash/Hang), permutation;
+                                      strict weak order: sorted
+     partition_permutation_lemma      EVERY comparator: whatever partition returns is a permutation and
+                                      a cut point in [1, count]
+     partition_lemma                  irreflexive: returns, 1 <= p <= count-1, permutation;
+                                      strict weak order: left part <= pivot <= right part
+     heap_sort_lemma                  irreflexive: returns, permutation; strict weak order: sorted
+     intro_sort_thr_lemma             the same for intro_sort with EVERY threshold and EVERY max_depth
+     sort_no_crash_lemma              irreflexive: sort returns Ok
+     sort_permutation_lemma           irreflexive: the result is a permutation of the input
+     sort_sorted_lemma                strict weak order: the result is sorted (Sorted and StronglySorted)
+     sort_ordered_permutation_lemma   the property as stated: strict weak order -> ordered permutation
+     heap_sort_needs_irreflexive_refuted, sort_needs_irreflexive_refuted
+                                      irreflexivity cannot be dropped: with a comparator that has
+                                      lt 1 1 = true heap_sort returns a list that has LOST an element;
+                                      with "always true" partition runs off the array (Crash).
+   Nothing is partial: all three regimes (insertion, quick/partition, bottom-up heap) are proved. *)
 Require Import Base Generated Sort.
 From Coq Require Import Permutation Sorted.
 Local Open Scope Z_scope.
